@@ -32,8 +32,8 @@ OBLIGATIONS = [
        'uniform grains: every grain gets the configured orientation', 'grains untouched outside the range / for other compositions', 'end'], '1 listed composition, 1..2 grains (3 thorough)', cases_thorough=[(f, s, k) for f in range(3) for (s, k) in ((0, 1), (0, 2), (0, 3), (3, 1))]),
     ob('C05.oceanic.halfspace', 'h_c05_half_space', [(0, 0), (3, 0)], ['half-space cooling: Tb + (Tt - Tb) erfc(depth / (2 sqrt(kappa age))), age = ridge distance / spreading velocity', OUT, 'end'],
        'all parameters incl. negative bottom temperature (adiabat), constant and variable depth surfaces', tus=TUS_OCE, stubs=STO),
-    ob('C05.oceanic.plate', 'h_c05_plate_model', [(0, 0), (0, 1)], ['plate model: 100-term plate cooling series with age = ridge distance / spreading velocity', 'constant-age plate model: 100-term plate cooling series with the configured age', OUT, 'end'],
-       '100 series terms executed concretely, compared term by term (uninterpreted sin/exp/sqrt)', tus=TUS_OCE, stubs=STO + ['libm functions purely uninterpreted here (no axioms): the comparison is structural, term by term'], max_steps=3000000, libm_axioms=False),
+    ob('C05.oceanic.plate', 'h_c05_plate_model', [(0, 0), (0, 1), (3, 0), (3, 1)], ['plate model: 100-term plate cooling series with age = ridge distance / spreading velocity', 'constant-age plate model: 100-term plate cooling series with the configured age', OUT, 'end'],
+       '100 series terms executed concretely, compared term by term (uninterpreted sin/exp/sqrt); constant and variable depth surfaces (the plate thickness of the formula is the model\'s max depth, the local surface value only bounds the range)', tus=TUS_OCE, stubs=STO + ['libm functions purely uninterpreted here (no axioms): the comparison is structural, term by term'], max_steps=3000000, libm_axioms=False),
     ob('C05.ridge', 'h_c05_ridge', [(0, 1), (1, 1)], ['distance is the Euclidean distance to the nearest point of the ridge polyline', 'distance is the smaller of the distances of the two longitude aliases\' nearest ridge points',
        'spreading velocity is interpolated at the chosen nearest ridge point (m/yr -> m/s)', 'end'], 'one ridge of 1..2 segments; Cartesian with the real distance, spherical with an uninterpreted great-circle distance (choice logic only)',
        tus=['c05_ridge.cc'] + BASE, native=False, stubs=['spherical distance_between_points_at_same_depth -> uninterpreted function of the compared point (its formula is C19.gc)'], cases_thorough=[(0, 1), (1, 1), (0, 2), (1, 2)], time_cap_thorough=900),
@@ -41,6 +41,7 @@ OBLIGATIONS = [
     ob('C05.line.adiabaticT', 'h_c05_line_adiabatic_T', [(0,), (1,)], ['negative local constants are replaced by the global ones', 'adiabatic temperature: Tp*exp(alpha*g*depth/cp) with the model\'s constants', OUT, 'end'], 'slab and fault families', tus=TUS_LINE),
     ob('C05.line.linearT', 'h_c05_line_linear_T', [(0, 0), (1, 0)], ['linear temperature: linear in the distance between the model\'s two bounds (negative end members => adiabat there)', OUT, 'end'], 'slab (top/bottom) and fault (center/side) families; bounds at least 1e-9 apart', tus=TUS_LINE),
     ob('C05.line.uniformC', 'h_c05_line_uniform_C', [(0, 1), (1, 1), (0, 2), (1, 2)], ['uniform composition: a listed composition gets its fraction combined by the operation', 'uniform composition: replace clears the compositions it does not list', OUT, 'end'], '1..2 listed compositions', tus=TUS_LINE),
+    ob('C05.line.smoothC', 'h_c05_line_smooth_C', [(0, 1), (1, 1), (0, 2), (1, 2)], ['smooth composition: the first fraction at the near end, the second at the far end, blended by (1 - tanh(10 (d - w/2)/w))/2', 'end'], 'slab (top/bottom fractions between min and max distance) and fault (center/side fractions over the side distance); 1..2 listed compositions; positive transition width; tanh uninterpreted', tus=TUS_LINE + ['features/subducting_plate_models/composition/smooth', 'features/fault_models/composition/smooth']),
     ob('C05.line.uniformV', 'h_c05_line_uniform_V', [(0,), (1,)], ['uniform raw velocity: the configured vector combined by the operation', OUT, 'end'], 'slab and fault families', tus=TUS_LINE),
     ob('C05.plume.uniformT', 'h_c05_plume_uniform_T', [()], ['uniform temperature: the configured value combined by the declared operation', OUT, 'end'], 'all parameters', tus=TUS_LINE),
     ob('C05.plume.gaussianT', 'h_c05_plume_gaussian_T', [(1, 0), (2, 0)], ['gaussian plume temperature: Tc * exp(-r/(2 sigma^2)) with Tc and sigma interpolated in depth (negative Tc => adiabat)', 'outside the plume the model returns the incoming value', 'end'], '1..2 depth entries (3 thorough), sigmas > 0', tus=TUS_LINE, cases_thorough=[(1, 0), (2, 0), (3, 0)]),
